@@ -1,8 +1,96 @@
-import DendroModel.Basic.Tree
-open DendroModel
+import DendroModel.Model.C05
+open DendroModel DendroModel.C05
+
+def parseRooted (s : String) : Option (Option Bool) :=
+  if s == "R" then some (some true) else if s == "U" then some (some false) else if s == "N" then some none else none
+
+def parseRat (s : String) : Option Rat := (Frac.parse s).map C04.fracToRat
+def parseORat (s : String) : Option (Option Rat) := if s == "N" then some none else (parseRat s).map some
+def rr := C04.renderRat
+
+/-- one tree record: `<R|U|N> <weight|N> <tree>` -/
+def parseTreeRec (ws : List String) : Option (TreeRec × List String) :=
+  match ws with
+  | r :: w :: rest =>
+    match parseRooted r, parseORat w, parseTree rest with
+    | some r, some w, some (t, rest') =>
+      let es := C04.edgeRecs r t
+      let t2 := C01.encodeTree r true true t
+      -- the edge of a bipartition is looked up through `bipartition_edge_map` (bipartitions hash by split mask):
+      -- two edges carrying the same split both resolve to the later one
+      let em := C04.edgeMap es
+      some ({ rooted := r == some true, weight := w, splits := es.map (·.split),
+              lens := es.map (fun e => ((C04.lookup em e.split).bind (·.len)).getD 0), leafset := t2.mask }, rest')
+    | _, _, _ => none
+  | _ => none
+
+def parseTreeRecs : Nat → List String → Option (List TreeRec × List String)
+  | 0, ws => some ([], ws)
+  | n + 1, ws =>
+    match parseTreeRec ws with
+    | some (t, rest) =>
+      match parseTreeRecs n rest with
+      | some (ts, rest') => some (t :: ts, rest')
+      | none => none
+    | none => none
+
+def insertSortedPair (x : Int × Rat) : List (Int × Rat) → List (Int × Rat)
+  | [] => [x]
+  | y :: ys => if x.1 ≤ y.1 then x :: y :: ys else y :: insertSortedPair x ys
+
+def optNat : Option Nat → String | none => "-" | some n => toString n
 
 def handle (ws : List String) : String :=
   match ws with
+  | "summ" :: useW :: mf :: incl :: all :: k :: rest =>
+    match parseORat mf, all.toNat?, k.toNat? with
+    | some mf, some all, some k =>
+      match (rest.take k).mapM String.toNat?, (rest.drop k) with
+      | some members, n :: rest2 =>
+        match n.toNat? with
+        | some n =>
+          match parseTreeRecs n rest2 with
+          | some (ts, []) =>
+            let sd := countAll (useW == "1") ts
+            let fs := (sd.counts.map (fun p => (p.1, freq sd p.1))).foldr insertSortedPair []
+            let crooted := consensusRooted sd
+            let cons := consensus sd mf all members crooted
+            let sums := ts.map (sumSupport sd (incl == "1"))
+            let prods := ts.map (prodSupport sd (incl == "1"))
+            let lens := (sd.lengths.map (fun p => (p.1, p.2))).foldr
+              (fun x acc => x :: acc) []
+            "freqs " ++ " ".intercalate (fs.map (fun p => s!"{p.1}:{rr p.2}"))
+              ++ " | cons " ++ Hier.render cons ++ " | crooted " ++ (if crooted then "1" else "0")
+              ++ " | sums " ++ " ".intercalate (sums.map rr)
+              ++ " | prods " ++ " ".intercalate (prods.map rr)
+              ++ " | argsum " ++ optNat (argmaxFirst sums)
+              ++ " | argprod " ++ optNat (argmaxFirst prods)
+              ++ " | lens " ++ " ".intercalate (lens.map (fun p =>
+                  let l := p.2
+                  let s := sortAsc l
+                  s!"{p.1}:{l.length},{rr (mean l)},{rr (median l)},{rr (s.headD 0)},{rr (s.getLastD 0)}," ++
+                    (if l.length ≥ 2 then rr (sampleVar l) else "inf")))
+          | _ => "bad-trees"
+        | none => "bad-op"
+      | _, _ => "bad-op"
+    | _, _, _ => "bad-op"
+  | "collapse" :: useW :: mf :: n :: rest =>
+    match parseRat mf, n.toNat? with
+    | some mf, some n =>
+      match parseTreeRecs n rest with
+      | some (ts, r :: rest2) =>
+        match parseRooted r, parseTree rest2 with
+        | some r, some (t, []) =>
+          let sd := countAll (useW == "1") ts
+          let t2 := C01.encodeTree r true true t
+          let L := t2.mask
+          let weakOf := fun (nd : T) => decide (freq sd (C01.splitOf (r == some true) L nd.mask) < mf)
+          let weakIds := (t2.nodes.filter weakOf).map T.id
+          let weak := fun i => weakIds.contains i
+          if anyWeakLeaf weak t2 then "E" else (collapseWeak weak t2).render
+        | _, _ => "bad-target"
+      | _ => "bad-trees"
+    | _, _ => "bad-op"
   | _ => "bad-op"
 
 def main : IO Unit := do driverLoop (← IO.getStdin) handle
